@@ -3,6 +3,7 @@ import Demeter.Trigger
 import Demeter.Actuator
 import Demeter.Actuator.Causal
 import Demeter.Actuator.Hooks
+import Demeter.Actuator.Rerun
 namespace Demeter.Drv
 open Demeter Demeter.Core Lean
 
@@ -295,6 +296,21 @@ def runGH : JHandler := fun j => do
     let r2 := actuatorRunG cfg (trigsAfterRunG cfg trigs g) g2
     pure (first.setObjVal! "second" (resultJ made cfg r2))
 
+/-- `Actuator.run` in the code's order (`runG2`: `initialize()`, then the reset of everything installed) and the second run of the same strategy
+    object (`rerun2`: the list handed back, `initialize()` installing the same objects in the state the first run left them in); under
+    `"second_reset_before_init"` what the older model (reset on entry only) answers for that second run -/
+def runG2H : JHandler := fun j => do
+  let cfg ← parseCfg j
+  let specsJ := match jOpt j "specs" with | some (.arr a) => a.toList | _ => []
+  let specs ← specsJ.mapM fun s => do pure (jStrD s "kw" "", ← parseSpec s)
+  let (made, ok) := buildTrigs specs
+  let trigs := install (ok.map fun (kw, _, k) => (kw, k))
+  let g ← parseGScript ((jOpt j "script").getD (Json.mkObj []))
+  let first := resultJ made cfg (runG2 cfg trigs g)
+  let afterIds := Json.arr ((trigsAfterRun2 cfg trigs g).map fun t => nJ t.id).toArray
+  pure (((first.setObjVal! "second" (resultJ made cfg (rerun2 cfg trigs g))).setObjVal! "second_reset_before_init"
+    (resultJ made cfg (rerun2ResetBeforeInit cfg trigs g))).setObjVal! "handed_back" afterIds)
+
 /-- the trigger loop alone with actions that change the list (`trigRunD`), and the same bars through the cursor reading (`cursorLoop`) -/
 def trigRunDynH : JHandler := fun j => do
   let bars ← jIntArr j "bars"
@@ -341,6 +357,7 @@ def coreJHandlers : List (String × JHandler) := [
   ("trig_run", CoreDrv.trigRunH),
   ("run", CoreDrv.runH),
   ("run_g", CoreDrv.runGH),
+  ("run_g2", CoreDrv.runG2H),
   ("trig_run_dyn", CoreDrv.trigRunDynH),
   ("views", CoreDrv.viewsH)
 ]
